@@ -123,7 +123,9 @@ CLAIMS = {
    text="Deductive proof from the real source, with the eigen-decomposition as an uninterpreted kernel, of ssi.ac2mp (poles = log(eigenvalue)/dt, frequency = |lambda|/2pi, damping = -Re lambda/|lambda|, "
         "shape i = C v_i divided by its largest-magnitude component, that component reported as exactly 1) for symbolic state dimension and channel count, and of ssi.SSI_poles (loop invariant over symbolic "
         "ordmax; step 1, no uncertainty): column c of the frequency, damping, shape and pole tables holds, row by row, the parameters of ONE eigenvalue of the order-c model, complex shapes kept complex, NaN below and in "
-        "column 0. The clause 'order 2m contains exactly the system's m conjugate pairs, and extraction returns them' is a numerical theorem about SVD/QR and is checked only by a bounded stand-in on noise-free "
+        "column 0; and of both realisation routines at the matrix-term level (ssi.SSI_fast without uncertainty, ssi.SSI; loop invariants over symbolic ordmax, block rows, channel and reference counts): "
+        "Obs = U[:, :n] sqrt(diag sigma), the order-ii state matrix is the solve between Obs without its LAST block row and Obs without its FIRST block row - a shift by exactly one block of l output "
+        "rows - and C is the first block row. The clause 'order 2m contains exactly the system's m conjugate pairs, and extraction returns them' is a numerical theorem about SVD/QR and is checked only by a bounded stand-in on noise-free "
         "synthetic systems through SingleSetup (labelled bounded, not counted as proved).",
    note="Mixed level: proof for the modal-parameter formulas and the table layout, bounded for exact recovery. Trusted: eig kernel, complex log / sqrt axioms, argmax contract.",
    design="6 (C01)", technique="contract-based deductive verification (pyvc AST->VC, z3; kernels uninterpreted, loop invariant over the order loop); bounded native stand-in for the exact-recovery theorem"),
